@@ -48,6 +48,12 @@ def ensure_govc():
     subprocess.run(["go", "build", "-o", GOVC, "."], cwd=src_dir, env=go_env(), check=True)
 
 
+PURE_VALUE_FUNCS = {"IndexByte", "LastIndexByte", "Index", "LastIndex", "IndexAny", "IndexRune", "IndexFunc", "Cut", "CutPrefix", "CutSuffix",
+                    "HasPrefix", "HasSuffix", "Contains", "ContainsAny", "TrimSuffix", "TrimPrefix", "TrimSpace", "Trim", "TrimRight", "TrimLeft",
+                    "Split", "SplitN", "Fields", "ParseInt", "ParseUint", "Atoi", "ParseFloat", "ParseBool", "RuneCount", "RuneCountInString",
+                    "ToLower", "ToUpper", "EqualFold", "Equal", "Compare", "Count"}
+
+
 def load_json(path, default):
     try:
         with open(path) as f:
@@ -152,6 +158,9 @@ def classify(pid, results, baseline, known):
             # a call-site clause that defined ghosts (set ...) on the baseline tree and matches no call now: the logical
             # variables it defined (the position a library call returned ...) are undefined, clauses over them are not decided
             gone = sorted(set((baseline.get(pid, {}).get("used_set_clauses") or {}).get(fname, [])) - set(f.get("used_set_clauses") or []))
+            # ... only for pure value functions of the standard library: a call with an effect (Lock, Write, Commit, a counter of
+            # must-calls) that vanished is exactly what the counting clauses are there to report
+            gone = [c for c in gone if c.split(".")[-1] in PURE_VALUE_FUNCS]
             if gone and not f.get("error"):
                 f.setdefault("drift", [])
                 f["drift"] = list(f["drift"]) + ["anchor not found: setat (the call `%s` whose clause defines ghosts is gone)" % c for c in gone]
